@@ -22,7 +22,7 @@ MIN_NONTRIVIAL = {"quick": 5000, "thorough": 50000}
 REQUIRED_PROBES = ["region_to_extent"]
 REQUIRED_FEATURES = ["binsize:fixed", "binsize:variable", "chrom:exhaustive", "chrom:sampled", "location:nested-group",
                      "cooler:derived+chromosome-end-near-2^31", "history:queried-after-rename_chroms", "fetch2:cross-chrom",
-                     "chrom:>2^20-bins"]
+                     "chrom:>2^20-bins", "history:path-held-another-cooler-that-was-queried"]
 
 FAMS = ["fixed_exact", "fixed_short", "fixed_onebin", "variable", "onebin_each", "trap", "mixed", "multi_width"]
 
@@ -200,6 +200,18 @@ def run_table(ctx, cid, bt, rng, maxlen, sample_big=False, derive_k=None):
     uri = path + ("::" + group if group != "/" else "")
     if group != "/" and rng.random() < 0.5:
         make_cooler(path, [["rootchrom", [0, 7, 14]]], {(0, 1): 9})   # another collection sits at the root
+    reused = False
+    if rng.random() < 0.35:
+        # history: the same path (and group) held another cooler before - same chromosomes, other bin counts per
+        # chromosome - and that one was range-queried in this process; nothing of it may survive in later answers
+        pre_bt = [[nm, [0, e[-1]]] if len(e) > 2 or i_ % 2 else [nm, sorted({0, max(1, e[-1] // 2), e[-1]})]
+                  for i_, (nm, e) in enumerate(bt)]
+        make_cooler(uri, pre_bt, {(0, 0): 1}, mode="a")
+        pre = cooler.Cooler(uri)
+        for nm, e in pre_bt:
+            pre.extent(nm); pre.bins().fetch(nm); pre.pixels().fetch(nm); pre.matrix(balance=False).fetch(nm)
+        del pre
+        reused = True
     if derive_k:
         fine = ctx.path()
         Pf = gen.gen_pixels(rng, gen.bt_nbins(fine_bt), True, ["sparse30", "dense"][int(rng.integers(2))])
@@ -219,6 +231,8 @@ def run_table(ctx, cid, bt, rng, maxlen, sample_big=False, derive_k=None):
     with ctx.case(cid, {"bt": bt, "nnz": len(P)}) as c:
         c.feature("binsize:fixed" if clr.binsize is not None else "binsize:variable",
                   "location:root" if group == "/" else "location:nested-group")
+        if reused:
+            c.feature("history:path-held-another-cooler-that-was-queried")
         if gen.bt_fixed_width(bt) is None and clr.binsize is not None:
             c.feature("trap-table-reported-fixed")
         if derive_k:
